@@ -441,6 +441,7 @@ func rep(op string, raw []byte) map[string]interface{} {
 
 // checkTx evaluates the property predicate on the real code for one byte string and compares with the model.
 func checkTx(kind string, raw []byte) {
+	beat("btc.NewTx & co on "+short(raw), rep("tx", raw))
 	obsCount++
 	exactAlloc := obsCount%4 == 0 || strings.HasPrefix(kind, "corpus") || strings.HasPrefix(kind, "huge") || strings.HasPrefix(kind, "lenform") || kind == "replay"
 	{
@@ -812,6 +813,7 @@ func checkEnc(g *vlib.Rng) {
 // checkEncTx: the fields of t as a hand-built btc.Tx through SerializeNew / Serialize, against the BIP144 serialisation of
 // the same fields and against the model's encodeTx / encodeTxNoWit
 func checkEncTx(t refTx, kind string) {
+	beat("a hand-built btc.Tx through Serialize / SerializeNew ("+kind+")", nil)
 	tx := new(btc.Tx)
 	tx.Version, tx.Lock_time = t.ver, t.lock
 	var sb strings.Builder
@@ -976,6 +978,7 @@ func refMerkle(ids [][]byte) (root []byte, mutated bool) {
 }
 
 func checkBlock(kind string, raw []byte) {
+	beat(fmt.Sprintf("btc.NewBlock + BuildTxListExt on a block of %d bytes (%s)", len(raw), kind), rep("block", raw))
 	if a, alive := probe("b", raw); !alive || a > 64*uint64(len(raw))+(1<<20) {
 		what := fmt.Sprintf("btc.NewBlock+BuildTxList allocated %d bytes for an input of %d bytes", a, len(raw))
 		if !alive {
@@ -1352,6 +1355,7 @@ func main() {
 		syscall.Dup3(int(nul.Fd()), 2, 0)
 	}
 	debug.SetGCPercent(400)
+	startWatchdog()
 
 	if r.Replay != "" {
 		replay(r.Replay)
